@@ -328,6 +328,41 @@ pub fn c08(cx: &mut Ctx) {
             cx.op("close?");
         }
     }
+    // the single-call API: into_body, is_ended before and after reads, read under small buffers
+    for n in [0usize, 1, 2, 5, 17] {
+        for cap in [1usize, 3, 1024] {
+            for cut in [0usize, 1] {
+                cx.case("callrecv");
+                let body: Vec<u8> = (0..n).map(|i| b'm' + (i % 10) as u8).collect();
+                if cx.rec.new_call("nobody", "GET HTTP/1.1 http://a.test/p 0") != "ok" { continue; }
+                cx.op("cwrite 4096");
+                if cx.op("cinto") != "state callRecvResponse" { continue; }
+                let head = format!("HTTP/1.1 200 OK\r\nContent-Length: {}\r\n\r\n", n).into_bytes();
+                cx.op(&format!("cresp {}", hx(&head)));
+                cx.op("cfinished");
+                if cx.op("cbody") != "state callRecvBody" { continue; }
+                cx.meta(&format!("len {} {}", n, hx(&body)));
+                cx.op("cended");
+                let mut stream = body.clone();
+                stream.extend_from_slice(NEXT);
+                let mut off = 0usize;
+                let first = if cut == 0 { stream.len() } else { n / 2 };
+                for upto in [first, stream.len()] {
+                    for _ in 0..(n + 3) {
+                        if off > upto { break; }
+                        let res = cx.op(&format!("cread {} {}", hx(&stream[off..upto]), cap));
+                        let p: Vec<&str> = res.split(' ').collect();
+                        if p[0] != "bytes" { break; }
+                        let i: usize = p[1].parse().unwrap_or(0);
+                        off += i;
+                        cx.op("cended");
+                        if i == 0 { break; }
+                    }
+                }
+                cx.meta(&format!("consumed {}", off));
+            }
+        }
+    }
     // an informational response first, then the length-delimited one on the same flow
     for n in [1usize, 5, 300] {
         cx.case("after1xx");
